@@ -105,6 +105,26 @@ CLAIMED = {
         note="Coq kernel, no axioms; h5py/OS are oracles; labelled partial for runtime behaviour below the Python level.",
         technique="Coq proof (fault lemma by induction; file-name loop) + exhaustive fault injection on the real code",
         design="7/C15"),
+    "C12": dict(
+        text="Coq theorems: every step used is positive and <= the effective maximum and the invariant is preserved by every step "
+             "(any refusal pattern, any history of |d|psi|^2| values); adaptivity off => every step equals dt_init and a refusal "
+             "raises; after the warm-up window the proposal equals min(1/2 (dt + dt_init/delta), dt_max) with delta = "
+             "max(1e-10, windowed mean); the step used is tentative * mult^r with r = number of refusals <= max_retries+1; "
+             "exhausting the retries raises. Correspondence: real TDGLSolver.update stepped with injected refusals over random "
+             "settings vs Model.Adapt.astep (PrimFloat, dt used bit-exact, proposal to 1e-12); oracle = documented rule in Python.",
+        note="Coq kernel; stdlib real-number axioms; np.mean summation order compared with tolerance 1e-12.",
+        technique="Coq proof over R (invariant, induction over retries) + vm_compute correspondence with injected refusals",
+        design="7/C12"),
+    "C13": dict(
+        text="Coq theorems: the kernel equals the direct double sum (any currents, areas, point sets) and is linear; any iterate "
+             "returned by the screening loop passed the convergence test with an error that IS the relative mismatch between the "
+             "kernel of the last currents and the previous iterate; edge-wise bound |dA_e| < tol max(1e-20,|A'_e|); stored mismatch "
+             "K - A' = dA - v' (exactly (1-alpha) dA for beta = 1; general beta measured: PARTIAL); iteration count <= max+1; the "
+             "loop always decides. Correspondence: get_A_induced_numba and get_induced_vector_potential vs the model (PrimFloat); "
+             "oracle on every step of real screening runs, forced non-convergence, screening disabled (also seeded).",
+        note="Coq kernel; stdlib real-number axioms; fastmath reassociation allowed by tolerance 1e-9; site averaging passed as data.",
+        technique="Coq proof over R (loop invariant) + vm_compute correspondence of kernel and Polyak step + run oracle",
+        design="7/C13"),
 }
 
 PENDING_REASON = "check not built yet in this session (planned, see DESIGN.md section 7); not claimed until it runs"
